@@ -85,6 +85,16 @@ def build(reg):
     @reg.model('Dyn._runShell')
     def m_run(eng, st, args, kw, node):
         g = st.ghost
+        # the build script: in clean-build mode (bob build / --clean) the invoker empties the workspace first, so that a re-run after a
+        # failed or killed script never continues on its partial output: the clean-build switch must arrive as `cleanWorkspace`
+        if len(args) > 2 and args[2].t == STR and z3.is_string_value(args[2].z) and args[2].z.as_string() == 'build':
+            me = st.frames[-1].get('self'); cw = args[5] if len(args) > 5 else kw.get('cleanWorkspace')
+            want = dyn.ATTR(me.z, z3.StringVal('_LocalBuilder__cleanBuild'))
+            eng.oblige(st, 'runShell@%s:clean-build-switch-is-passed-as-the-clean-flag-of-the-build-script' % node.lineno,
+                       (dyn.dynify(eng, st, cw) == want) if cw is not None else z3.BoolVal(False), 'effect', node)
+            cr = st.frames[-1].get('created'); wc = args[4] if len(args) > 4 else kw.get('workspaceCreated')
+            if cr is not None and wc is not None:
+                eng.oblige(st, 'runShell@%s:workspace-created-flag-is-what-constructDir-reported' % node.lineno, dyn.dynify(eng, st, wc) == dyn.dynify(eng, st, cr), 'effect', node)
         g['RAN'] = mk_bool(True)
         g['DIRTY'] = mk_bool(True); g['RUNSEQ'] = mk_int(g['RUNSEQ'].z + 1)
         crash_point(eng, st, 'start-of-script', node)
